@@ -279,8 +279,13 @@ class Result:
         self.violations.append((summary, replay_obj, nofail))
 
     def known_finding(self, text):
-        if text not in self.known:
-            self.known.append(text)
+        """text starts with the finding's key; one line per key (first witness + count)"""
+        key = text.split(" ", 1)[0]
+        for k in self.known:
+            if k[0] == key:
+                k[2] += 1
+                return
+        self.known.append([key, text, 1])
 
     def finish(self, level="proof"):
         cov = self.coverage
@@ -292,8 +297,10 @@ class Result:
         os.makedirs(os.path.join(VERIF, "evidence"), exist_ok=True)
         with open(os.path.join(VERIF, "evidence", self.pid + ".json"), "w") as f:
             json.dump(ev, f, indent=1, sort_keys=True)
-        for k in self.known:
-            print("KNOWN-FINDING: property=%s %s" % (self.pid, k))
+        for key, text, cnt in self.known:
+            print("KNOWN-FINDING: property=%s %s%s" % (self.pid, text, " (%d occurrences in this run)" % cnt if cnt > 1 else ""))
+        if self.known:
+            self.coverage["known_findings_seen"] = {k[0]: k[2] for k in self.known}
         if not self.violations:
             print("OK property=%s tier=%s obligations=%s discharged=%s evaluations=%s wall=%.1fs" % (
                 self.pid, self.tier, cov.get("obligations"), cov.get("discharged"), cov.get("evaluations"),
